@@ -52,6 +52,18 @@ def built_cases(r):
         else:
             builds.append(e_int(1)); builds.append(e_float(1)); lines.append('ins_78(__B(%d), __B(%d), @mask=__B(%d));' % (len(builds) - 2, len(builds) - 1, len(builds) - 2) if r.chance(0.2) else 'ins_78(__B(%d), __B(%d));' % (len(builds) - 2, len(builds) - 1))
         if r.chance(0.3): lines.append(r.pick(['+5:', '-3:', '10:', 'lbl%d:' % len(lines), 'interrupt[3]:', '{"EN"}: ins_5();']))
+    # prefix operators in front of operands that are only reachable from text: calls, enum constants, pre-/post-increment, label properties,
+    # names that start with the letters of the legacy `!ENHL...` difficulty syntax
+    if r.chance(0.35):
+        ops = ['! ', '- ', '~ ']      # (spaced in the source, so that the source itself is lexed as intended; what the formatter prints is the question)
+        rands = ['Easy(3)', 'Ex', 'N', 'Hard(1, 2)', 'Lunatic', 'W', 'X()', 'O', 'E.foo', 'Color.Red', '--REG[10000]', '++REG[10001]', 'timeof(lbl0)', 'offsetof(lbl0)', 'x4', 'f(-1)', '_S(1.5)', 'sin(1.0)',
+                 '(-3)', '(--REG[10000])', '4', '77', '(-5)', '(! Ex)', '(1:2:3)', '(REG[10000] ? 1 : 2)', '"str"', 'REG[10000]--', 'REG[10000]++']
+        for _ in range(r.randint(1, 4)):
+            e = r.pick(ops) + r.pick(rands)
+            if r.chance(0.3): e = r.pick(ops) + '(' + e + ')'
+            if r.chance(0.3): e = '%s %s %s' % (e, r.pick(['+', '-', '*', '&&', '==']), r.pick(ops) + r.pick(rands))
+            lines.append(r.pick(['REG[10000] = %s;', 'ins_77(%s);', 'if (%s) goto lbl0;', 'ins_78(1, %s);']) % e)
+        lines.append('lbl0:')
     return '{\n' + '\n'.join(lines) + '\n}', builds
 
 def judge(ctx, kind, text, resp, req):
